@@ -375,25 +375,26 @@ impl Condition {
         result: &HashMap<String, u32>,
         dictionary: &Dictionary,
     ) -> bool {
+        // a FILTER keeps a solution only if its expression is true; an error
+        // (for example an unbound variable) removes the solution
         self.evaluate_filter_with_ids(&self.expression, result, dictionary)
+            .unwrap_or(false)
     }
 
+    /// Three-valued evaluation: `None` is SPARQL's expression error, which
+    /// `!`, `&&` and `||` propagate as the SPARQL truth tables say.
     fn evaluate_filter_with_ids(
         &self,
         expression: &ConditionExpression,
         result: &HashMap<String, u32>,
         dictionary: &Dictionary,
-    ) -> bool {
+    ) -> Option<bool> {
         match expression {
             ConditionExpression::Comparison(variable, operator, value) => {
-                let Some(&id) = result.get(Self::normalize_variable(variable)) else {
-                    return false;
-                };
+                let &id = result.get(Self::normalize_variable(variable))?;
                 if Self::is_variable(value) {
-                    let Some(&rhs) = result.get(Self::normalize_variable(value)) else {
-                        return false;
-                    };
-                    return match operator.as_str() {
+                    let &rhs = result.get(Self::normalize_variable(value))?;
+                    return Some(match operator.as_str() {
                         "=" => id == rhs,
                         "!=" => id != rhs,
                         _ => {
@@ -401,57 +402,61 @@ impl Condition {
                             let rhs = dictionary.decode(rhs).unwrap_or("");
                             Self::compare_lexical(lhs, operator, rhs)
                         }
-                    };
+                    });
                 }
 
                 let lhs = Self::normalize_lexical(dictionary.decode(id).unwrap_or(""));
                 let rhs = Self::normalize_lexical(value);
-                Self::compare_lexical(lhs, operator, rhs)
+                Some(Self::compare_lexical(lhs, operator, rhs))
             }
             ConditionExpression::ArithmeticComparison(left, operator, right) => {
                 let resolver = |variable: &str| {
                     let &id = result.get(Self::normalize_variable(variable))?;
                     dictionary.decode(id)?.parse::<f64>().ok()
                 };
-                let Ok(left) = Self::evaluate_arithmetic(left, &resolver) else {
-                    return false;
-                };
-                let Ok(right) = Self::evaluate_arithmetic(right, &resolver) else {
-                    return false;
-                };
-                Self::compare_numeric(left, operator, right)
+                let left = Self::evaluate_arithmetic(left, &resolver).ok()?;
+                let right = Self::evaluate_arithmetic(right, &resolver).ok()?;
+                Some(Self::compare_numeric(left, operator, right))
             }
             ConditionExpression::And(left, right) => {
-                self.evaluate_filter_with_ids(left, result, dictionary)
-                    && self.evaluate_filter_with_ids(right, result, dictionary)
+                let left = self.evaluate_filter_with_ids(left, result, dictionary);
+                let right = self.evaluate_filter_with_ids(right, result, dictionary);
+                match (left, right) {
+                    (Some(false), _) | (_, Some(false)) => Some(false),
+                    (Some(true), Some(true)) => Some(true),
+                    _ => None,
+                }
             }
             ConditionExpression::Or(left, right) => {
-                self.evaluate_filter_with_ids(left, result, dictionary)
-                    || self.evaluate_filter_with_ids(right, result, dictionary)
+                let left = self.evaluate_filter_with_ids(left, result, dictionary);
+                let right = self.evaluate_filter_with_ids(right, result, dictionary);
+                match (left, right) {
+                    (Some(true), _) | (_, Some(true)) => Some(true),
+                    (Some(false), Some(false)) => Some(false),
+                    _ => None,
+                }
             }
-            ConditionExpression::Not(inner) => {
-                !self.evaluate_filter_with_ids(inner, result, dictionary)
-            }
+            ConditionExpression::Not(inner) => self
+                .evaluate_filter_with_ids(inner, result, dictionary)
+                .map(|value| !value),
             ConditionExpression::ArithmeticExpr(expression) => {
                 let resolver = |variable: &str| {
                     let &id = result.get(Self::normalize_variable(variable))?;
                     dictionary.decode(id)?.parse::<f64>().ok()
                 };
                 Self::evaluate_arithmetic(expression, &resolver)
+                    .ok()
                     .map(|value| value != 0.0)
-                    .unwrap_or(false)
             }
             ConditionExpression::FunctionCall(name, arguments) => {
                 use shared::quoted_triple_store::is_quoted_triple_id;
                 if name != "isTRIPLE" {
-                    return false;
+                    return None;
                 }
-                let Some(argument) = arguments.first() else {
-                    return false;
-                };
+                let argument = arguments.first()?;
                 result
                     .get(Self::normalize_variable(argument))
-                    .is_some_and(|id| is_quoted_triple_id(*id))
+                    .map(|id| is_quoted_triple_id(*id))
             }
         }
     }
